@@ -212,7 +212,7 @@ impl Property for C16S {
             });
         }
         blocks.push(Block::Delay(4));
-        let guest = GuestSpec { blocks, handlers: vec![], code_dram: rng.chance(1, 3), stack_dram: false, data_dram: false, vec_top: 0, sub_delay: 1, init_ccr: None };
+        let guest = GuestSpec { blocks, handlers: vec![], code_dram: rng.chance(1, 3), stack_dram: false, data_dram: false, vec_top: 0, sub_delay: 1, init_ccr: None, stack_off: 0 };
         let est = super::c10::estimate_iters(&guest);
         let mut events = Vec::new();
         for _ in 0..rng.range(1, 12) {
